@@ -13,6 +13,8 @@ MODULES = [
     "contracts.rate_limiter",
     "contracts.validators",
     "contracts.dynamic_lists",
+    "contracts.auth",
+    "contracts.web",
 ]
 for m in MODULES:
     importlib.import_module(m)
@@ -26,6 +28,8 @@ if os.path.exists(_kf):
 COMMON_ASSUMPTIONS = ["A1", "A6", "A7"]
 
 PROPERTIES = {
+    "C15": {"level": "proof", "trusted_base": ["z3 SMT solver", "pyvc VC generator (/verif/pyvc)", "CPython ast module"], "assumptions": ["A3", "EV"]},
+    "C14": {"level": "proof", "trusted_base": ["z3 SMT solver", "pyvc VC generator (/verif/pyvc)", "CPython ast module"], "assumptions": ["EV"]},
     "C16": {
         "level": "proof",
         "trusted_base": ["z3 SMT solver", "pyvc VC generator (/verif/pyvc)", "CPython ast module"],
